@@ -139,7 +139,7 @@ def second_operand(mesh, k, seed, ndmask):
     rng = np.random.default_rng(seed)
     Mg = rng.random(n) < 0.7
     arr = gen.make_array(seed + 1, (*n, k), "int") + 0.5
-    return df.Field(mesh, nvdim=k, value=arr, valid=Mg), Mg
+    return df.Field(mesh, nvdim=k, value=np.array(arr, copy=True), valid=Mg), Mg
 
 
 def check_program(case):
@@ -151,7 +151,7 @@ def check_program(case):
     mesh = gen.build_mesh(g)
     M = gen.make_mask(case["mask"], n)
     arr = gen.make_array(case["seed"], (*n, k), "int") + 0.25
-    f = df.Field(mesh, nvdim=k, value=arr, valid=M.copy())
+    f = df.Field(mesh, nvdim=k, value=np.array(arr, copy=True), valid=M.copy())
     applied = 0
     for op in case["ops"]:
         kind, s, a, b, c = op
@@ -405,9 +405,9 @@ def check_setter(case):
         val, model = None, np.ones(n, dtype=bool)
     dkw = {"dtype": arr.dtype} if arr.dtype.kind in "ic" else {}  # integer / complex storage is asked for explicitly
     if case["via"] == "init":
-        f = df.Field(mesh, nvdim=k, value=arr, valid=val, **dkw)
+        f = df.Field(mesh, nvdim=k, value=np.array(arr, copy=True), valid=val, **dkw)
     else:
-        f = df.Field(mesh, nvdim=k, value=arr, valid=~M, **dkw)
+        f = df.Field(mesh, nvdim=k, value=np.array(arr, copy=True), valid=~M, **dkw)
         f.valid = val
     require(np.array_equal(f.array, arr), "setter-changed-values")
     v = f.valid
